@@ -228,6 +228,82 @@ class LdmHarness:
         return bad
 
 
+class ThreadedHarness:
+    """The threaded variants (LDMMaintenanceThread + LDMServiceThreads with their own threads, loops and locks) under the
+    scheduler: at t = 1 s an add, a delete and a query meet the maintenance loop's collection of an expiring object, while the
+    service loop attends a subscription at arbitrary moments.  Conservation oracle (the loops make the set of operations
+    schedule-dependent, so no linearizability comparison): nothing raises or deadlocks, the query sees only objects present at
+    some instant, the final store is exactly {new object}, every notification carries only stored objects."""
+    name = "threaded_variants"
+    perm = None
+
+    def setup(self, s):
+        from flexstack.facilities.local_dynamic_map.factory import LDMFactory
+        self.s = s
+        self.w = w = L.LdmWorld()
+        with w:
+            w.ldm = LDMFactory().create_ldm(w.area, "Thread", "Thread", "Dictionary")
+        self.res = {}
+        w.reg_provider(CAM)
+        w.reg_consumer(CAM)
+        self.id_a = w.add(CAM, L.MSGS["camA"](), 1)      # lapses at t = 1 s
+        self.id_b = w.add(CAM, L.MSGS["camB"](), 9)
+        self.sub = w.subscribe(CAM, (CAM,), "s0")
+        self.texts = {k: L.jtext(L.MSGS[k]()) for k in ("camA", "camB", "camC")}
+
+    def actors(self):
+        w, s = self.w, self.s
+
+        def a_add():
+            s.sleep(1.0)
+            self.res["add"] = w.add(CAM, L.MSGS["camC"](), 9, ts=L.its_ms(s.now))
+
+        def a_del():
+            s.sleep(1.0)
+            self.res["del"] = w.delete(CAM, self.id_b)
+
+        def a_req():
+            s.sleep(1.0)
+            self.res["req"] = w.request(CAM, (CAM,))
+
+        def a_stop():
+            s.sleep(2.2)
+            self.res["before_stop"] = w.request(CAM, (CAM,))
+            for obj in (w.ldm.ldm_maintenance, w.ldm.ldm_service):
+                ev = getattr(obj, "stop_event", None)
+                if ev is not None:
+                    ev.set()
+        return [("add", a_add), ("del", a_del), ("req", a_req), ("stop", a_stop)]
+
+    def outcome(self, s):
+        return (repr(sorted((k, repr(v)[:80]) for k, v in self.res.items())), len(self.w.calls), s.deadlock)
+
+    def check(self, s):
+        bad = []
+        t = self.texts
+        for k, v in self.res.items():
+            if L.is_exc(v):
+                bad.append(dict(kind="operation_raised", harness=self.name, op=[k], exc=v[1] + ": " + v[2][:60]))
+        if bad:
+            return bad
+        if self.res.get("del") != 0:
+            bad.append(dict(kind="threaded_delete_failed", harness=self.name, result=repr(self.res.get("del"))))
+        req = self.res.get("req")
+        if req is not None:
+            got = set(canon_records(req[1]))
+            if not got <= {t["camA"], t["camB"], t["camC"]} or len(got) != len(req[1]):
+                bad.append(dict(kind="threaded_query_foreign_or_duplicate", harness=self.name))
+        fin = self.res.get("before_stop")
+        if fin is not None and set(canon_records(fin[1])) != {t["camC"]} or (fin is not None and len(fin[1]) != 1):
+            bad.append(dict(kind="threaded_final_store", harness=self.name, got=len(fin[1]),
+                            has=[k for k in t if t[k] in set(canon_records(fin[1]))]))
+        for c in self.w.calls:
+            objs = set(canon_records(c[3]))
+            if not objs <= {t["camA"], t["camB"], t["camC"]}:
+                bad.append(dict(kind="threaded_notification_foreign_object", harness=self.name))
+        return bad
+
+
 _SEQ = {}
 
 
@@ -251,7 +327,7 @@ def sequential_outcomes(name):
 
 
 def make(name):
-    return LdmHarness(name)
+    return ThreadedHarness() if name == ThreadedHarness.name else LdmHarness(name)
 
 
 def run(ctx):
@@ -277,6 +353,19 @@ def run(ctx):
                                    distinct_sequential_outcomes=len(set(_SEQ[name].values())), violations=st["nviol"])
             for rec, choices in st["violations"]:
                 ctx.violation(rec, replay=dict(harness=name, choices=choices))
+        if thorough:
+            # the threaded variants with their own loops: every NON-preemptive schedule (the six threads take turns at blocking
+            # points only; one preemption would already mean millions of schedules), conservation oracle
+            name = ThreadedHarness.name
+            st = SC.explore(make, (name,), 0, SCHED_KW, pool=pool)
+            tot += st["schedules"]
+            steps += st["steps"]
+            outcomes += len(st["outcomes"])
+            capped = capped or st["capped"]
+            ctx.parts[name] = dict(schedules=st["schedules"], preemption_bound=0, points_max=st["max_points"], steps=st["steps"],
+                                   distinct_outcomes=len(st["outcomes"]), violations=st["nviol"])
+            for rec, choices in st["violations"]:
+                ctx.violation(rec, replay=dict(harness=name, choices=choices))
     ctx.coverage.update(
         states=outcomes, transitions=tot, traces_validated_against_impl=tot, scheduler_steps=steps, exhaustive=not capped, samples=samples[:4],
         explanation=("every schedule with at most the stated number of preemptions of each harness (scheduling points before every "
@@ -284,7 +373,9 @@ def run(ctx):
                      "(per-operation results, callback payloads, final store and registries) must equal the outcome of SOME sequential order "
                      "of the same operations, consistent with real-time precedence, executed on the same real implementation"))
     ctx.assumptions += ["C-level atomicity of dict/list operations (CPython)", "the sequential behaviour of the LDM is the reference (sequential defects are C12-C14's subject)",
-                        "TinyDB back-end not explored (file I/O is outside the scheduler)"]
+                        "TinyDB back-end not explored (file I/O is outside the scheduler)",
+                        "the bodies of the maintenance and service threads are explored as explicit actors on the reactive classes; the "
+                        "threaded subclasses themselves (own loops and lock) only at preemption bound 0, thorough tier"]
 
 
 def replay(path):
